@@ -774,9 +774,8 @@ impl NodeToInsert {
 
         if let Some(room_id) = &node.room_id {
             if let Some(old_id) = &self.old_room_id {
-                if !room_id.eq(old_id) {
-                    daily_log.set_need_update(*old_id, &node._entity, self.old_mdate);
-                }
+                //the replaced version leaves its day, even when the room does not change
+                daily_log.set_need_update(*old_id, &node._entity, self.old_mdate);
             }
             daily_log.set_need_update(*room_id, &node._entity, node.mdate);
         }
